@@ -124,7 +124,11 @@ def vertical_profiles(
     # implicit array-to-scalar coercion that was deprecated in numpy 1.25.
     # Use np.squeeze().item() to handle both 0-d and shaped arrays from
     # OAAHOC path where z0/aa/bb may have extra dimensions from tke broadcast.
-    zeta = np.arange(0.0, np.squeeze(zetamx).item() + dzeta, dzeta)
+    # Count the steps explicitly: with the domain top at the measurement
+    # height zetamx / dzeta is n up to rounding, and a float stop argument
+    # would gain or lose a node depending on the last bit of z0.
+    nsteps = int(np.ceil(np.squeeze(zetamx).item() / dzeta - 1e-9))
+    zeta = dzeta * np.arange(nsteps + 1)
 
     with np.errstate(invalid="ignore", divide="ignore"):
         z = -h * np.log(-(zeta - aa) / bb)
